@@ -59,14 +59,40 @@ def next_time(rng, now):
     return now + rng.randrange(0, 3 * 86400)
 
 
+SUPPORTED = ('USD', 'GBP', 'EUR')       # only steers the generator; the model and the oracle use the list the code itself holds
+
+
+def gen_currency(rng, p_bad=0.5):
+    """a currency code: a supported one, or something close to one — a fragment of some rendering of the list of codes,
+    another case, padded, doubled, empty, or simply another code"""
+    if rng.random() >= p_bad:
+        return rng.choice(SUPPORTED)
+    k = rng.random()
+    if k < 0.45:
+        text = rng.choice([', ', ',', ' ', '/', '']).join(SUPPORTED) if rng.random() < 0.8 else str(list(SUPPORTED))
+        i = rng.randrange(0, len(text))
+        j = rng.randrange(i, min(len(text), i + 5) + 1)
+        c = text[i:j]
+        return c if c not in SUPPORTED else c[:-1]
+    c = rng.choice(SUPPORTED)
+    if k < 0.55:
+        return c.lower()
+    if k < 0.65:
+        return rng.choice([c + ' ', ' ' + c, c + c, c[:2], c[1:], c + 'X'])
+    if k < 0.7:
+        return ''
+    return rng.choice(['XXX', 'JPY', 'CHF', 'usd', 'US$'])
+
+
 def gen_case(rng, n_ops=None, invalid_rate=0.15, pf_level=True):
     start = MON + rng.randrange(0, 14) * 86400 + rng.choice(TODS)
     funds = rng.choice([0.0, 1e5, 1e6, 2.5e5, -1.0]) if rng.random() < 0.9 else rng.uniform(0, 1e6)
     if funds < 0 and rng.random() < 0.7:
         funds = 1e6
     case = dict(start=start, funds=funds, fee=gen_fee(rng), np_quotes=rng.random() < 0.8, ops=[], tzmix=rng.random() < 0.25)
+    case['cur'] = gen_currency(rng, 0.5) if rng.random() < 0.12 else rng.choice(SUPPORTED)
     ops = case['ops']
-    if funds < 0:
+    if funds < 0 or case['cur'] not in SUPPORTED:
         return case
     now = start
     # shadow state, only to steer the generator towards interesting, mostly-valid ops
@@ -139,7 +165,9 @@ def gen_case(rng, n_ops=None, invalid_rate=0.15, pf_level=True):
                     q = rng.choice([1, -1]) * rng.choice([10 ** 5, 250000, 10 ** 6])
             n_sub = sum(1 for o in ops if o[0] == 'submit')
             dup = rng.randrange(1, n_sub + 1) if n_sub and rng.random() < 0.04 else None
-            ops.append(['submit', pid, a, int(q)] + ([dup] if dup is not None else []))
+            # the Order's own `commission` attribute (constructor option): the broker charges what its fee model says
+            own = rng.choice([1.0, 9.99, 250.0, rng.uniform(0.01, 50.0)]) if rng.random() < 0.08 else None
+            ops.append(['submit', pid, a, int(q)] + ([dup, own] if own is not None else [dup] if dup is not None else []))
             if pid in pfs and a != 'UUU':
                 pfs[pid]['pend'].append((a, q))
         elif k < 0.70:
@@ -163,7 +191,7 @@ def gen_case(rng, n_ops=None, invalid_rate=0.15, pf_level=True):
                     p['pend'] = []
         elif k < 0.93:
             what = rng.choice(['pfcash', 'pfmv', 'pfeq', 'pfdict', 'cash'])
-            arg = rng.choice(['USD', 'GBP', 'XXX', 'JPY']) if what == 'cash' else (pid if rng.random() < 0.7 else '9')
+            arg = gen_currency(rng, 0.5) if what == 'cash' else (pid if rng.random() < 0.7 else '9')
             ops.append(['q', what, arg])
         else:
             # portfolio-level API, called directly on broker.portfolios[pid]
